@@ -843,6 +843,50 @@ def c12(tier, rng, rep, only=None):
                 rep.violation("arbitrary(%s) of %s, which declares `finite`, returned the non-finite value %s" % (c.arg, c.decl.id, c.impl), case_payload(c, ga))
     rep.coverage["arbitrary_values_of_finite_types"] = n_arb
     rep.coverage["eq_ord_gate_declarations"] = n_gate
+    # Deserialize is a safe entry point too: float types with `finite` deriving Eq / Ord and
+    # Deserialize, fed non-finite payloads in every format (and serde's own value deserializers)
+    n_de = 0
+    if only is None:
+        sdecls = []
+        for d in corpus.gen_serde_decls(rng.fork("serde"), tier):
+            if d.family() == "float" and "finite" in runner.block_idents(runner.find_block(d.toks, "validate") or []):
+                d.toks = corpus.replace_derive(d.toks, ["Debug", "Clone", "PartialEq", "Eq", "PartialOrd", "Ord", "Serialize", "Deserialize", "TryFrom"])
+                d.id = "q" + d.id
+                sdecls.append(d)
+
+        def ops_de(g_, d, r):
+            is64 = FLOAT_TYPES[d.inner]
+            ops = []
+            for bs in ([0xca, 0x7f, 0xc0, 0, 0], [0xca, 0x7f, 0x80, 0, 0], [0xca, 0xff, 0x80, 0, 0], [0xca, 0xff, 0xc0, 0, 1],
+                       [0xcb, 0x7f, 0xf8, 0, 0, 0, 0, 0, 0], [0xcb, 0x7f, 0xf0, 0, 0, 0, 0, 0, 0], [0xcb, 0xff, 0xf0, 0, 0, 0, 0, 0, 0],
+                       [0xcb, 0x7f, 0xf0, 0, 0, 0, 0, 0, 1], [0xca, 0x3f, 0xc0, 0, 0], [0xcb, 0x40, 0x1c, 0, 0, 0, 0, 0, 0], [0xc0], [0x05]):
+                ops.append(("de_mp", "(b%s)" % "".join(" %d" % b_ for b_ in bs)))
+            for doc in ("NaN", "inf", "-inf", "1e400", "-1e400", "1.5", "null", "7", "-0.0", "3.5e38", "1.8e308"):
+                ops.append(("de_json", val_sexp(("s", doc))))
+                ops.append(("de_ron", val_sexp(("s", doc))))
+            for bits in corpus.float_specials(is64):
+                ops.append(("de_self", val_sexp(("f", bits))))
+                ops.append(("de_seq1", val_sexp(("f", bits))))
+            g_.add_ops(d, ops)
+        gs = make_guard_run(tier, rng, decls=sdecls, ops_for=ops_de, spec=False, wsname="serde12")
+        gs.build()
+        gs.run_impl()
+        for c in gs.cases:
+            if c.decl.id not in gs.live or c.impl is None:
+                continue
+            n_de += 1
+            if c.impl == "panic":
+                rep.violation("%s(%s) panicked" % (c.op, c.arg), case_payload(c, gs))
+            elif c.impl.startswith("ok (f "):
+                is64 = FLOAT_TYPES[c.decl.inner]
+                bits = int(c.impl[6:-1])
+                e = (bits >> (52 if is64 else 23)) & ((1 << (11 if is64 else 8)) - 1)
+                if e == (1 << (11 if is64 else 8)) - 1:
+                    rep.violation("%s(%s) produced a non-finite value of %s, which declares `finite` and derives Eq / Ord: %s"
+                                  % (c.op, c.arg, c.decl.id, c.impl), case_payload(c, gs))
+        if not n_de:
+            rep.violation("self-check: no deserialization into a finite float type deriving Eq / Ord", {"kind": "coverage"}, no_input=True)
+    rep.coverage["deserializations_into_finite_eq_ord_types"] = n_de
     n = npairs = ntriples = 0
     for d in g.decls:
         if d.id not in g.live:
@@ -1310,7 +1354,10 @@ def c11(tier, rng, rep, only=None):
         adecls = (corpus.gen_arb_ints(rng.fork("arbint"), tier) + corpus.gen_arb_floats(rng.fork("arbfloat"), tier) + corpus.gen_arb_strs(rng.fork("arbstr"), tier))
         g5 = flows.GuardRun("arb" if tier == "quick" else "arb_t", adecls)
         for d in adecls:
-            if c11_eligible(d) and c09_class(d) is None:
+            # (integer declarations with the idempotent clamp sanitizer and bounds belong to a recorded
+            # C09 class: the generator may panic there, but a value it does return must be canonical)
+            cls_ = c09_class(d)
+            if c11_eligible(d) and (cls_ is None or cls_[0] == "int_custom_sanitizer_with_bounds"):
                 ins = corpus.arb_byte_inputs(d, rng.fork(d.id), tier)
                 g5.add_ops(d, [("arb", "(b%s)" % "".join(" %d" % b_ for b_ in bs)) for bs in ins[:: (1 if d.family() == "str" else 3)]])
         g5.build()
@@ -2067,7 +2114,7 @@ def inventory_check(g, rep, what, decl_filter=None):
                 if r[0] == "bare":
                     own = {d.name, d.name + "Error", d.name + "ParseError", "CErr", "T", "TT", "Inner", "__Visitor", "D", "DE", "S", "E", "H", "V"}
                     own |= {g_[0] for g_ in d.generics}
-                    own |= {e_[0].split("::")[0].rstrip("!") for e_ in d.env} | {"RE0", "RE1", "RE2"}
+                    own |= {e_[0].split("::")[0].rstrip("!") for e_ in d.env} | {"RE0", "RE1", "RE2", "RE3", "RE4"}
                     own |= set(re.findall(r"[A-Za-z_]\w*", d.inner))
                     bad = [x for x in r[1].split(",") if x and x not in NOSTD_BARE_OK and x not in own]
                     if bad:
@@ -2177,7 +2224,7 @@ PROPS = {
 }
 
 
-ZOO_PROPS = ("C01", "C03", "C04", "C06", "C10", "C11", "C13")
+ZOO_PROPS = ("C01", "C03", "C04", "C06", "C09", "C10", "C11", "C13", "C14")
 
 
 def zoo_part(rep, pid):
